@@ -21,6 +21,7 @@ import (
 	"github.com/kardiachain/go-kardia/kai/kaidb"
 	"github.com/kardiachain/go-kardia/kai/kaidb/memorydb"
 	"github.com/kardiachain/go-kardia/lib/common"
+	cmn "github.com/kardiachain/go-kardia/lib/common"
 	"github.com/kardiachain/go-kardia/lib/crypto"
 	"github.com/kardiachain/go-kardia/mainchain/genesis"
 	kproto "github.com/kardiachain/go-kardia/proto/kardiachain/types"
@@ -133,7 +134,19 @@ type Msg struct {
 	From    int    // validator index of the origin (signer / proposer), -1 unknown
 	ByzTag  string // non-empty for adversary-made messages: describes the variant
 	Invalid string // non-empty if the adversary made it deliberately invalid (which rule)
+	// Claim, when set: the vote is sent after a VoteSetMaj23 claim of a correct peer for the vote's block in the
+	// vote's round (queryMaj23Routine + VoteSetBits exchange): the receiver first records the claim, which lets it
+	// take a vote that conflicts with the one it holds from the same validator.
+	Claim   *Claim
 	sortKey string
+}
+
+// Claim is a +2/3 claim of correct peer From for (Round, Type, ID).
+type Claim struct {
+	From  int
+	Round uint32
+	Type  kproto.SignedMsgType
+	ID    types.BlockID
 }
 
 // Delivery is a log entry: what was handed to which node at which step.
@@ -187,6 +200,7 @@ type World struct {
 	KeepTrace  bool
 	byzCache   map[string]*Msg
 	byzBlocks  map[string]*BlockInfo
+	claims     map[int]map[string]claimRec // +2/3 claims recorded per receiver
 	Deviations []string
 	DriverOK   bool
 	VoteReg    map[string]*types.Vote // every vote message seen, by signature
@@ -510,7 +524,59 @@ func (w *World) version(i int) string {
 		fmt.Fprintf(&sb, "|%d:%s:%s", r, bitsOf(rs.Votes.Prevotes(r)), bitsOf(rs.Votes.Precommits(r)))
 	}
 	fmt.Fprintf(&sb, "|lc:%s|f%v", bitsOf(rs.LastCommit), n.Failed != nil)
+	if k := w.claimsAt(i, rs.Height); len(k) > 0 {
+		// votes taken into a block's tally under a peer's +2/3 claim do not show in the per-validator bit arrays
+		for _, c := range k {
+			fmt.Fprintf(&sb, "|m%d/%d/%s:%s", c.Round, c.Type, blockKey(c.ID), tallyBits(rs, c))
+		}
+	}
 	return sb.String()
+}
+
+func voteSetOf(rs *cstypes.RoundState, round uint32, t kproto.SignedMsgType) *types.VoteSet {
+	if rs.Votes == nil {
+		return nil
+	}
+	if t == kproto.PrevoteType {
+		return rs.Votes.Prevotes(round)
+	}
+	return rs.Votes.Precommits(round)
+}
+
+func tallyBits(rs *cstypes.RoundState, c Claim) string {
+	vs := voteSetOf(rs, c.Round, c.Type)
+	if vs == nil {
+		return "-"
+	}
+	if ba := vs.BitArrayByBlockID(c.ID); ba != nil {
+		return ba.String()
+	}
+	return "-"
+}
+
+// claimsAt lists the +2/3 claims recorded at node i for height h, in canonical order.
+func (w *World) claimsAt(i int, h uint64) []Claim {
+	m := w.claims[i]
+	if len(m) == 0 {
+		return nil
+	}
+	var keys []string
+	for k, c := range m {
+		if c.h == h {
+			keys = append(keys, k)
+		}
+	}
+	sort.Strings(keys)
+	out := make([]Claim, 0, len(keys))
+	for _, k := range keys {
+		out = append(out, m[k].Claim)
+	}
+	return out
+}
+
+type claimRec struct {
+	Claim
+	h uint64
 }
 
 // ---------------------------------------------------------------------------------------------
@@ -642,6 +708,7 @@ func (w *World) deliverables(r int) []*Msg {
 					}
 				}
 			}
+			w.claimedVotes(r, s, rs, ss, add)
 		case ss.Height == rs.Height+1:
 			for _, v := range consensus.VerifVotesOf(ss.LastCommit) {
 				if lacksVote(rs, v) {
@@ -671,6 +738,58 @@ func (w *World) deliverables(r int) []*Msg {
 		return out[i].ID < out[j].ID
 	})
 	return out
+}
+
+// claimedVotes models queryMaj23Routine + the VoteSetBits answer + gossipVotesRoutine for votes the receiver
+// could not take so far: a correct peer s that holds +2/3 for a block in the receiver's current round, or (prevotes)
+// in the POL round of the proposal the receiver holds, claims that majority; the receiver records the claim
+// (HeightVoteSet.SetPeerMaj23, what the reactor does on VoteSetMaj23) and answers with the votes it has for that
+// block; s then sends the ones it lacks - including a vote that conflicts with the one the receiver holds from
+// the same (equivocating) validator, which a VoteSet only takes under such a claim. Without this an equivocation
+// shown to different nodes could split the correct nodes' views of a polka for good, which the real reactor repairs.
+func (w *World) claimedVotes(r, s int, rs, ss *cstypes.RoundState, add func(*Msg)) {
+	if rs.Votes == nil || ss.Votes == nil {
+		return
+	}
+	type rt struct {
+		round uint32
+		t     kproto.SignedMsgType
+	}
+	cand := []rt{{rs.Round, kproto.PrevoteType}, {rs.Round, kproto.PrecommitType}}
+	if rs.Proposal != nil && rs.Proposal.POLRound > 0 {
+		cand = append(cand, rt{rs.Proposal.POLRound, kproto.PrevoteType})
+	}
+	for _, c := range cand {
+		svs := voteSetOf(ss, c.round, c.t)
+		if svs == nil {
+			continue
+		}
+		maj, ok := svs.TwoThirdsMajority()
+		if !ok {
+			continue
+		}
+		rvs := voteSetOf(rs, c.round, c.t)
+		if rvs == nil {
+			continue // the receiver takes every vote of that round through the ordinary path first
+		}
+		var rb *cmn.BitArray
+		if rvs != nil {
+			rb = rvs.BitArrayByBlockID(maj)
+		}
+		for _, sv := range consensus.VerifVotesFor(svs, maj) {
+			cur := rvs.GetByIndex(sv.ValidatorIndex)
+			if cur == nil || cur.BlockID.Equal(maj) {
+				continue // nothing held (ordinary path) or the same vote
+			}
+			if rb != nil && rb.GetIndex(int(sv.ValidatorIndex)) {
+				continue // already in the block's tally
+			}
+			m := w.wrap(consensus.VerifVoteMsg(sv), -1)
+			m.ID = "M" + m.ID[1:]
+			m.Claim = &Claim{From: s, Round: c.round, Type: c.t, ID: maj}
+			add(m)
+		}
+	}
 }
 
 func (w *World) catchupParts(r, s int, add func(*Msg)) {
@@ -742,6 +861,16 @@ func (w *World) Deliver(i int, m *Msg) {
 		peer = fmt.Sprint("v", m.From)
 	}
 	w.cur = i
+	if m.Claim != nil {
+		if w.claims == nil {
+			w.claims = map[int]map[string]claimRec{}
+		}
+		if w.claims[i] == nil {
+			w.claims[i] = map[string]claimRec{}
+		}
+		w.claims[i][fmt.Sprintf("%04d|%d|%s", m.Claim.Round, m.Claim.Type, blockKey(m.Claim.ID))] = claimRec{*m.Claim, m.Height}
+		w.Nodes[i].SetPeerMaj23(m.Claim.Round, m.Claim.Type, fmt.Sprint("v", m.Claim.From), m.Claim.ID)
+	}
 	w.Nodes[i].DeliverPeerMsg(m.M, peer)
 	w.cur = -1
 	w.afterStep(i)
